@@ -496,17 +496,37 @@ pub fn giant_input(proto: u8, kind: usize) -> &'static (Vec<u8>, usize) {
         // would otherwise be initialised by this set-up, in its order, in every process alike)
         if std::env::var("PFV_GIANT_INLINE").is_err() {
             if let Ok(exe) = std::env::current_exe() {
-                if let Ok(o) = std::process::Command::new(exe).arg("giant").env("PFV_GIANT_INLINE", "1").output() {
-                    let text = String::from_utf8_lossy(&o.stdout);
-                    let v: Vec<(Vec<u8>, usize)> = text
-                        .lines()
-                        .filter_map(|l| {
-                            let (a, b) = l.split_once(' ')?;
-                            Some((unhex(b), a.parse().ok()?))
-                        })
-                        .collect();
-                    if o.status.success() && v.len() == 12 {
-                        return v;
+                // the helper has no work-bound watchdog of its own: if it does not finish within two
+                // minutes (a generation that never returns) it is killed and the inputs are steered
+                // here instead, where the watchdog turns a stuck generation into a verdict
+                let tmp = std::env::temp_dir().join(format!("pfv-giant-{}.txt", std::process::id()));
+                if let Ok(f) = std::fs::File::create(&tmp) {
+                    if let Ok(mut ch) = std::process::Command::new(exe).arg("giant").env("PFV_GIANT_INLINE", "1").stdout(f).stderr(std::process::Stdio::null()).spawn() {
+                        let t0 = std::time::Instant::now();
+                        let status = loop {
+                            match ch.try_wait() {
+                                Ok(Some(s)) => break Some(s),
+                                Ok(None) if t0.elapsed() > std::time::Duration::from_secs(120) => {
+                                    let _ = ch.kill();
+                                    let _ = ch.wait();
+                                    break None;
+                                }
+                                Ok(None) => std::thread::sleep(std::time::Duration::from_millis(20)),
+                                Err(_) => break None,
+                            }
+                        };
+                        let text = std::fs::read_to_string(&tmp).unwrap_or_default();
+                        let _ = std::fs::remove_file(&tmp);
+                        let v: Vec<(Vec<u8>, usize)> = text
+                            .lines()
+                            .filter_map(|l| {
+                                let (a, b) = l.split_once(' ')?;
+                                Some((unhex(b), a.parse().ok()?))
+                            })
+                            .collect();
+                        if matches!(status, Some(s) if s.success()) && v.len() == 12 {
+                            return v;
+                        }
                     }
                 }
             }
